@@ -24,6 +24,10 @@ TwoR == { <<o1, a, o2, b, c>> : o1 \in BinOps, o2 \in BinOps, a \in Leaves3, b \
 Negs == { <<"neg", a>> : a \in Leaves6 } \cup { <<o, <<"neg">>[1], a, b>> : o \in {"+", "*", "-"}, a \in {"size", "3"}, b \in {"size", "2"} }
         \cup { <<o, a, "neg", b>> : o \in {"+", "*", "-"}, a \in {"size", "3"}, b \in {"size", "2"} }
         \cup { <<"neg", o, a, b>> : o \in {"+", "*"}, a \in {"size", "3"}, b \in {"hardlinks", "2"} }
+        \* a minus directly after an opening bracket: c * (-a o b), c - (-a), (-(a o b)) o c
+        \cup { <<"*", c, o, "neg", a, b>> : c \in {"2"}, o \in {"+", "-"}, a \in {"size", "3", "length(name)"}, b \in {"20", "size"} }
+        \cup { <<"-", c, "neg", a>> : c \in {"2", "size"}, a \in {"size", "3"} }
+        \cup { <<"*", "2", "-", "neg", "+", "size", "1", "3">> }
 
 Init == kind = "" /\ exprs = <<>> /\ wop = "" /\ wlit = 0 /\ style = "min" /\ phase = "start"
 ChooseOne == /\ phase = "start" /\ kind' = "one" /\ \E e \in One \cup TwoL \cup TwoR \cup Negs : exprs' = <<e>>
@@ -40,7 +44,10 @@ ChooseWhere == /\ phase = "start" /\ kind' = "where"
                /\ wop' \in {"gt", "eq", "lte"} /\ wlit' \in {0, 5, 14, 24, 0 - 5, 0 - 14} /\ style' = "min" /\ phase' = "done"
 Lists == { << <<"+", "size", "1">>, <<"-", "size", "1">>, <<"*", "size", "2">>, <<"neg", "size">>, <<"+", "*", "2", "3", "4">> >>,
            << <<"+", "*", "2", "3", "4">>, <<"neg", "size">>, <<"*", "size", "2">>, <<"-", "size", "1">>, <<"+", "size", "1">> >>,
-           << <<"*", "+", "2", "3", "4">>, <<"+", "2", "*", "3", "4">>, <<"%", "size", "5">>, <<"/", "size", "1">>, <<"size">> >> }
+           << <<"*", "+", "2", "3", "4">>, <<"+", "2", "*", "3", "4">>, <<"%", "size", "5">>, <<"/", "size", "1">>, <<"size">> >>,
+           \* the same negated bracket more than once in a row, alone and as a sub-expression
+           << <<"*", "neg", "+", "size", "1", "2">>, <<"neg", "+", "size", "1">>, <<"neg", "+", "size", "1">>, <<"+", "size", "1">> >>,
+           << <<"neg", "%", "size", "5">>, <<"%", "size", "5">>, <<"neg", "%", "size", "5">>, <<"-", "10", "neg", "*", "size", "2">>, <<"neg", "*", "size", "2">> >> }
 ChooseList == /\ phase = "start" /\ kind' = "list" /\ exprs' \in Lists /\ style' = "min" /\ wop' = "" /\ wlit' = 0 /\ phase' = "done"
 Next == ChooseOne \/ ChoosePairOp \/ ChoosePairBr \/ ChooseWhere \/ ChooseList
 Spec == Init /\ [][Next]_vars
